@@ -803,7 +803,9 @@ LITS_DOC = """(* Gen/Gen_Lits.v  GENERATED by tools/translate.py from the source
            a second definition of the same name in the same scope (property setter) is keyed "<name>#2".
      L_<id> : list bytes   the str / bytes constants (UTF-8 octets of a str): default values of the
                            parameters first, then the body.  Docstrings and any other statement
-                           that consists of a bare string are NOT included.  Parts of f-strings are.
+                           that consists of a bare string are NOT included, nor are the arguments of
+                           logger.<level>(...) / <x>.logger.<level>(...) calls (text of log records).
+                           Parts of f-strings are.
      I_<id> : list N       the int constants (bool excluded; a negative number  -3  appears as 3),
                            emitted only when there is at least one.
      F_<id> : list bytes   the float constants as Python repr text, only when there is at least one.
@@ -826,13 +828,21 @@ def modkey(repo, path):
 def is_bare_string(st):
     return isinstance(st, ast.Expr) and isinstance(st.value, ast.Constant) and isinstance(st.value.value, (str, bytes))
 
+LOG_METHODS = ('debug', 'info', 'warning', 'warn', 'error', 'critical', 'exception', 'log')
+def is_log_call(n):
+    """logger.<level>(...) / self.logger.<level>(...) / <x>.logger.<level>(...): the text of log records is not harvested."""
+    if not (isinstance(n, ast.Call) and isinstance(n.func, ast.Attribute) and n.func.attr in LOG_METHODS):
+        return False
+    r = n.func.value
+    return (isinstance(r, ast.Name) and r.id == 'logger') or (isinstance(r, ast.Attribute) and r.attr == 'logger')
+
 def harvest(path, nodes, skip=()):
     """(strs, ints, floats) of the constants below the given ast nodes, in source order; bare string
     statements (docstrings) and the sub-trees listed in `skip` are left out."""
     skip = set(id(x) for x in skip)
     found = []
     def visit(n):
-        if id(n) in skip or is_bare_string(n):
+        if id(n) in skip or is_bare_string(n) or is_log_call(n):
             return
         if isinstance(n, ast.Constant):
             v = n.value
